@@ -1,6 +1,7 @@
 package verifsim
 
 import (
+	"hash/fnv"
 	"context"
 	"crypto/ed25519"
 	"crypto/sha256"
@@ -57,8 +58,9 @@ type simNet struct {
 	pending []*pendingRPC
 	seq     int
 	down    map[peer.ID]bool
-	// fetchFail[node] = number of upcoming block fetches by that node that fail
-	fetchFail map[peer.ID]int
+	// fetchFail[node] = salt (>0) of the injected fetch failures of that node, see GetBlock
+	fetchFail   map[peer.ID]int
+	fetchFailed map[string]bool
 	stats     map[string]int
 	// tamper, when set, may rewrite a request before it is handed to the receiver (C12)
 	OnPayload func(kind string, from, to peer.ID, payload []byte)
@@ -239,11 +241,22 @@ func (n *simNet) Exchange(p *defranet.Peer) exchange.Interface { return &simExch
 func (e *simExchange) GetBlock(ctx context.Context, c cid.Cid) (blocks.Block, error) {
 	me := e.owner.PeerID()
 	e.net.mu.Lock()
-	if e.net.fetchFail[me] > 0 {
-		e.net.fetchFail[me]--
-		e.net.stats["fetch_failed_injected"]++
-		e.net.mu.Unlock()
-		return nil, ipld.ErrNotFound{Cid: c}
+	if salt := e.net.fetchFail[me]; salt > 0 {
+		// Injected fetch failures are a function of the block, not of the order in which the fetches of
+		// concurrent sync goroutines arrive: every third block (by a salted hash) fails its first fetch.
+		h := fnv.New32a()
+		h.Write(c.Bytes())
+		h.Write([]byte{byte(salt), byte(salt >> 8)})
+		key := me.String() + "/" + c.KeyString()
+		if h.Sum32()%3 == 0 && !e.net.fetchFailed[key] {
+			if e.net.fetchFailed == nil {
+				e.net.fetchFailed = map[string]bool{}
+			}
+			e.net.fetchFailed[key] = true
+			e.net.stats["fetch_failed_injected"]++
+			e.net.mu.Unlock()
+			return nil, ipld.ErrNotFound{Cid: c}
+		}
 	}
 	if e.net.down[me] {
 		e.net.mu.Unlock()
